@@ -240,6 +240,96 @@ func c16(c *core.Ctx) {
 		}
 	}
 
+	// C16.handover: the window between SummonSwamp returning an already open swamp and the caller's
+	// BeginVigil is protected only by the idle timer: the summon must restart it.
+	rH := c.Rule("C16.handover", "SummonSwamp hands out a swamp that is already open only after it called, on that swamp, a method that restarts the swamp's idle timer (a store to the field the idle-close listener compares with the idle limit): between the return and the caller's BeginVigil nothing else keeps the idle-close listener from closing an expired swamp, and a write made through the stale handle is acknowledged but never reaches the file", 1)
+	{
+		f := c.Fn(pkgHydra + ".hydra.SummonSwamp")
+		info := f.Info()
+		// the idle timer: the swamp field the close listener loads and compares (read next to closeAfterIdle)
+		_, swSt := p.StructOf(pkgSwamp, "swamp")
+		var timerF *types.Var
+		if idle := core.StructFields(swSt)["closeAfterIdle"]; idle != nil {
+			for _, g := range p.FuncsIn(pkgSwamp) {
+				if g.Decl.Body == nil {
+					continue
+				}
+				usesIdle := false
+				for _, a := range core.Accesses(g.Info(), g.Decl.Body, map[*types.Var]bool{idle: true}, true) {
+					if !a.Write {
+						usesIdle = true
+					}
+				}
+				if !usesIdle {
+					continue
+				}
+				for _, a := range core.Accesses(g.Info(), g.Decl.Body, nil, true) {
+					if b, ok := a.Field.Type().Underlying().(*types.Basic); ok && b.Kind() == types.Int64 && !a.Write && a.Field != idle && strings.Contains(strings.ToLower(a.Field.Name()), "interaction") {
+						timerF = a.Field
+					}
+				}
+			}
+		}
+		if timerF == nil {
+			rH.Bad(pkgSwamp+".swamp:idle-timer", f.Decl.Pos(), "cannot identify the idle timer field of the swamp (rule needs review)")
+		} else {
+			// swamp methods that restart the timer
+			restarts := map[string]bool{}
+			for _, g := range p.FuncsIn(pkgSwamp) {
+				if g.Decl.Body == nil || g.Decl.Recv == nil {
+					continue
+				}
+				for _, a := range core.Accesses(g.Info(), g.Decl.Body, map[*types.Var]bool{timerF: true}, false) {
+					if a.Write {
+						fl := core.NewFlow(p, g.Info(), g.Decl.Body)
+						if !fl.ExitWithout(fl.Entry(), nil, false, core.ContainsNode(a.Node)) {
+							restarts[g.Obj.Name()] = true
+						}
+					}
+				}
+			}
+			fl := core.NewFlow(p, info, f.Decl.Body)
+			var creates []*ast.CallExpr
+			core.Calls(f.Decl.Body, false, func(call *ast.CallExpr) {
+				if core.IsWsCallTo(info, call, pkgHydra+".hydra.createNewSwamp") {
+					creates = append(creates, call)
+				}
+			})
+			n := 0
+			fl.Nodes(func(l core.Loc, nd ast.Node) {
+				ret, ok := nd.(*ast.ReturnStmt)
+				if !ok || len(ret.Results) != 2 || !core.IsNilIdent(info, ret.Results[1]) {
+					return
+				}
+				obj := core.ObjOf(info, ret.Results[0])
+				if obj == nil {
+					return
+				}
+				for _, cr := range creates {
+					if lc, ok2 := fl.Locate(cr); ok2 && fl.Dominates(lc, l) {
+						return // a swamp created by this call: its timer starts now
+					}
+				}
+				n++
+				touched := false
+				core.Calls(f.Decl.Body, false, func(call *ast.CallExpr) {
+					fo := core.Callee(info, call)
+					if fo == nil || !restarts[fo.Name()] || core.ObjOf(info, core.RecvExpr(call)) != obj {
+						return
+					}
+					if lc, ok2 := fl.Locate(call); ok2 && fl.Dominates(lc, l) {
+						touched = true
+					}
+				})
+				rH.Check(touched, f.Key+":existing-swamp-returned-after-timer-restart", ret.Pos(), "a timer-restarting method of the swamp is called on every path to this return",
+					"an already open swamp is returned without restarting its idle timer: if the swamp is past its idle limit, the idle-close listener can close it before the caller's BeginVigil, and the caller's acknowledged write goes to a closed instance and is lost")
+			})
+			if n == 0 {
+				rH.Bad(f.Key+":existing-swamp-return", f.Decl.Pos(), "SummonSwamp has no return of an already open swamp (rule needs review)")
+			}
+		}
+	}
+
 	rS := c.Rule("C16.shutdown", "graceful stop marks the hydra shutting down before it closes the swamps, and the closing pass ranges over the live swamp map calling Close", 2)
 	{
 		g := c.Fn(pkgHydra + ".hydra.GracefulStop")
